@@ -745,6 +745,12 @@ func c16Algebra(r *Report, p *Prog, P, N *big.Int) {
 		}
 		key := "sm2/internal/fiat." + sp.name
 		pos := p.Pos(fn.Pos())
+		if to := fiatDelegates(fn, strings.TrimSuffix(sp.name, sp.kind), sp.kind); to != "" {
+			// the callee's own obligations are decided in this loop; the identity is 0 - a resp. a * a
+			r.Ok("FINAL-REDUCTION", key, pos, "delegates to "+strings.TrimSuffix(sp.name, sp.kind)+to+" (decided on its own), whose last stage is the reduction")
+			r.Ok("CONGRUENCE", key, pos, map[string]string{"Sub": "0 - arg1 through Sub with a zero minuend that is never written", "Mul": "arg1 * arg1 through Mul"}[to])
+			continue
+		}
 		a := &fiatAlg{p: p, fn: fn, m: sp.mod, syms: map[string]int{"1": 0}, names: []string{"1"}, valOf: map[ssa.Value]linF{}, cmov: map[*ssa.Alloc][3]ssa.Value{}}
 		if len(fn.Blocks) != 1 {
 			r.Undecided("CONGRUENCE", key, pos, "generated primitive is no longer straight-line")
@@ -809,6 +815,60 @@ func c16Algebra(r *Report, p *Prog, P, N *big.Int) {
 		ok := a.inSpan(T)
 		r.Check(ok, "CONGRUENCE", key, pos, fmt.Sprintf("%s follows from the %d instruction equations (span over F_m, %d symbols); V = value before the final conditional subtraction", what, len(a.eqs), len(a.names)))
 	}
+}
+
+
+// fiatDelegates: the primitive does nothing but call another primitive of its family in a way that realises its own
+// contract: Opp(out, a) = Sub(out, &zero, a) with zero a local that is never written, Square(out, a) = Mul(out, a, a).
+// Returns the callee's short name ("Sub", "Mul") or "".
+func fiatDelegates(fn *ssa.Function, prefix, kind string) string {
+	if len(fn.Blocks) != 1 || len(fn.Params) < 2 {
+		return ""
+	}
+	var call *ssa.Call
+	var allocs []*ssa.Alloc
+	for _, in := range fn.Blocks[0].Instrs {
+		switch x := in.(type) {
+		case *ssa.Alloc:
+			allocs = append(allocs, x)
+		case *ssa.Call:
+			if call != nil {
+				return ""
+			}
+			call = x
+		case *ssa.Return, *ssa.DebugRef:
+		default:
+			return ""
+		}
+	}
+	if call == nil {
+		return ""
+	}
+	cal := call.Call.StaticCallee()
+	if cal == nil || cal.Pkg != fn.Pkg || len(call.Call.Args) != 3 || call.Call.Args[0] != ssa.Value(fn.Params[0]) {
+		return ""
+	}
+	switch {
+	case kind == "Opp" && cal.Name() == prefix+"Sub" && len(allocs) == 1:
+		al := allocs[0]
+		// the zero minuend: a local whose only use is this call
+		if call.Call.Args[1] != ssa.Value(al) || call.Call.Args[2] != ssa.Value(fn.Params[1]) || al.Referrers() == nil {
+			return ""
+		}
+		for _, u := range *al.Referrers() {
+			if u != ssa.Instruction(call) {
+				if _, dbg := u.(*ssa.DebugRef); !dbg {
+					return ""
+				}
+			}
+		}
+		return "Sub"
+	case kind == "Square" && cal.Name() == prefix+"Mul" && len(allocs) == 0:
+		if call.Call.Args[1] == ssa.Value(fn.Params[1]) && call.Call.Args[2] == ssa.Value(fn.Params[1]) {
+			return "Mul"
+		}
+	}
+	return ""
 }
 
 // ---------------- NO-WRAP ----------------
